@@ -15,7 +15,8 @@ C05 (used by C02, C03, C06, C07, C08) — the content of an isotherm as a functi
     order of keyword arguments.
 As the code has it (witnesses below): reserved names that are not consumed (`_material`, …) are NOT filtered out of the metadata; the
 deprecated `loading_basis='volume'` is refused (the rewrite tests the class default, not the argument); an invalid material unit under a
-gas/liquid-volume loading basis raises KeyError, not ParameterError; a material dictionary loses its `name` in the CALLER's hands.
+gas/liquid-volume loading basis raises KeyError, not ParameterError.  Repaired (S58-C05): a material dictionary is no longer emptied of its
+`name` in the CALLER's hands (`arguments_unchanged_by_call`, `second_construction_same`; `popping_setter_breaks_reuse_witness` = why).
 -/
 import Mathlib.Tactic
 import Mathlib.Algebra.Order.Field.Rat
@@ -539,11 +540,35 @@ theorem material_unit_refusal_class_witness :
 
 def dNamed : Val ℚ := .dict [("name", .str "X"), ("density", .num 2)]
 
-/-- as the code has it: a material dictionary loses its `name` in the caller's hands, so the SAME dictionary object handed to a second
-constructor call describes a nameless material (the two isotherms differ) -/
-theorem material_dict_consumed_witness :
-    dictAfterCall dNamed = .dict [("density", .num 2)] ∧ setMaterial w0 dNamed = ⟨.str "X", [("density", .num 2)]⟩ ∧
-      setMaterial w0 (dictAfterCall dNamed) = ⟨.sc .none, [("density", .num 2)]⟩ := by decide
+def aNamed : Args ℚ := [("material", dNamed), ("adsorbate", .str "N2"), ("temperature", .sc (.int 77))]
+
+/-- **the arguments can be used again** (finding S58-C05, repaired: the material setter works on a copy of a dictionary): what the caller
+holds after a call is what was passed, so a second construction from the same argument OBJECTS is the same isotherm — same content, same
+identifier (`construct` is a function of the arguments; `id_independent_of_keyword_order` for the identifier) -/
+theorem arguments_unchanged_by_call (a : Args α) : argsAfterCall dictAfterCall a = a := by
+  induction a with
+  | nil => rfl
+  | cons kv t ih =>
+    have h : argsAfterCall dictAfterCall (kv :: t) = (if kv.1 = "material" ∨ kv.1 = "m" then (kv.1, dictAfterCall kv.2) else kv) ::
+        argsAfterCall dictAfterCall t := rfl
+    rw [h, ih]
+    by_cases hk : kv.1 = "material" ∨ kv.1 = "m" <;> simp [hk, dictAfterCall]
+
+theorem second_construction_same [Field α] (w : World α) (a : Args α) :
+    construct w (argsAfterCall dictAfterCall a) = construct w a := by
+  rw [arguments_unchanged_by_call]
+
+/-- non-vacuity: the dictionary route of the material, twice from the same arguments -/
+example : construct w0 (argsAfterCall dictAfterCall aNamed) = construct w0 aNamed ∧
+    (construct w0 aNamed).map (·.material) = .ok ⟨.str "X", [("density", .num 2)]⟩ := by decide
+
+/-- the copy is NEEDED: a setter that takes `name` out of the argument itself (`dictAfterPoppingCall`, the tree before S58-C05) leaves the
+caller a dictionary without the name, and the SAME dictionary object handed to a second constructor call describes a nameless material —
+the two isotherms differ although the program passed the same arguments twice -/
+theorem popping_setter_breaks_reuse_witness :
+    dictAfterPoppingCall dNamed = .dict [("density", .num 2)] ∧ setMaterial w0 dNamed = ⟨.str "X", [("density", .num 2)]⟩ ∧
+      setMaterial w0 (dictAfterPoppingCall dNamed) = ⟨.sc .none, [("density", .num 2)]⟩ ∧
+      construct w0 (argsAfterCall dictAfterPoppingCall aNamed) ≠ construct w0 aNamed := by decide
 
 /-- labels of the wrong type: a mode that is not a string is an AttributeError, an unhashable unit a TypeError,
 an adsorbate that is not a string an AttributeError — refused all the same -/
